@@ -114,6 +114,18 @@ func runC10(r *fw.Runner) {
 		for i, l := range lists {
 			c10Compare(c, composer, doc, l, "directed", fmt.Sprint("collision-", i))
 		}
+		// URI references validation lets through although they look like nothing: the empty reference, a fragment, a relative path
+		odd := map[string]interface{}{"publicKey": []interface{}{k1}, "alsoKnownAs": []interface{}{"", "did:example:a", "#me", "rel/path"}}
+		for i, l := range [][]interface{}{
+			{gen.PAddAka("did:example:z")}, {gen.PAddAka("did:example:a", "", "?q")}, {gen.PRemoveAka("")}, {gen.PRemoveAka("#me", "did:example:a")}, {gen.PRemoveAka("did:example:a"), gen.PAddAka("")},
+			{gen.PAddKeys(k2)}, {gen.PAddServices(s1)},
+		} {
+			c10Compare(c, composer, odd, l, "directed", fmt.Sprint("odd-uri-references-", i))
+		}
+		plain := map[string]interface{}{"publicKey": []interface{}{k1}}
+		for i, l := range [][]interface{}{{gen.PAddAka("")}, {gen.PAddAka("", "#me")}, {gen.PAddAka("x"), gen.PAddAka("")}} {
+			c10Compare(c, composer, plain, l, "directed", fmt.Sprint("odd-uri-references-fresh-", i))
+		}
 	})
 	for b := 0; b < r.N(150, 5000); b++ {
 		r.Case("random-lists", func(c *fw.Case) {
